@@ -35,7 +35,7 @@ def run(rep):
             c01.confirm(rep, tr)       # Dhuhr is the pivot of the order: it must be the transit (RA wrap days included)
         if any((x["cands"] or x["inconclusive"]) for x in results if x.get("fn") == "imsaak") or rep.tier == "thorough":
             pp.imsaak_grid(rep)
-        kres = [x for x in results if x["name"].startswith(("order", "get_fajr", "get_asr"))]
+        kres = [x for x in results if x["name"].startswith(("order", "get_fajr", "get_asr")) or x.get("fn") == "get_hours_wiring"]
         if any((x["cands"] or x["inconclusive"]) for x in kres) or rep.tier == "thorough":
             kp.confirm(rep, kres, WANT | {"asr"}, 60)
         if not rep.violations:
